@@ -188,7 +188,7 @@ CLAIMS['C10'] = {
              "earlier extern value can panic first when u8 is missing). The global iff (acyclic and defined <=> accepted) is decided on the "
              "implementation against an independent fixed-point analysis of generated dependency graphs (chains to depth 12, cycles, "
              "undefined names in 8 positions), including the exact set named in the error and the presence of every item and field."),
-    'note': COMMON_NOTE + "the global iff is not a theorem; it is checked per run on generated graphs. Known open finding shared with C09 (generated vftable in a signature).",
+    'note': COMMON_NOTE + "Props/C10Global.lean: defer_has_cause (every deferred attempt has a cause: an undefined name, an unresolved by-value dependency, or a size beyond usize – nothing else defers), stuck_has_cause / case_stuck_has_cause (when the build gives up every listed item waits on an undefined name, an overflow, or on another LISTED item: the stuck set is closed), accepted_defined_acyclic_novft (accepted => all names defined and by-value embedding acyclic) and acyclic_defined_not_stuck_novft(_partial) (defined and acyclic => not stuck, except for sizes beyond usize) on the vftable-free fragment; the unrestricted converse is REFUTED in Lean (`type T { a: [u64; 2^61] }` is answered `will not terminate` because the overflow is treated as not-yet-known) and NOT PROVED with vftable blocks. Known open finding shared with C09 (generated vftable in a signature).",
     'technique': 'Lean 4 proof (termination measure over rounds; fold inversion lemmas) + differential correspondence + independent graph oracle',
 }
 CLAIMS['C18'] = {
@@ -206,11 +206,16 @@ CLAIMS['C19'] = {
     'text': ("Locality theorems the frame property rests on: lookup_local / lookup_answer_is_candidate – a name lookup inspects a fixed list of "
              "candidate paths and answers with one of them; size_local – size and alignment depend on the by-value dependencies only; "
              "enum_items_local, type_items_local, type_items_no_bases, module_file_local – a module's file is printed from its own definition "
-             "paths and (through base hierarchies) the entries of its bases. The end-to-end frame statement composes these with C09 and is "
-             "decided on the implementation per run: accepted worlds are changed only outside what the observed module reaches (new "
+             "paths and (through base hierarchies) the entries of its bases. END TO END (Props/C19Frame.lean, vftable-free fragment, AST cases): added_module_frame / "
+             "added_module_frame_tight / added_module_files / added_module_o3 / added_module_registry – when a case and the case with one more module appended "
+             "are both accepted and the new module's path is unrelated (not a prefix of any old module path or `use`), every old module's emitted file is "
+             "identical, the file list grows by exactly the new module's file, and every old registry entry is preserved; the new module may import and embed "
+             "old types. Refute.added_module_registry_weak_refuted: without the condition on module paths the statement is FALSE (adding the parent module "
+             "`a` with a type `b` rebinds `b` inside module a::b) – replayed on the implementation and recorded as an open finding. With vftable blocks the "
+             "frame statement is decided on the implementation per run: accepted worlds are changed only outside what the observed module reaches (new "
              "modules with decoy names, unreferenced types, edits and removals of unreachable items) and the observed file must stay "
              "byte-identical."),
-    'note': COMMON_NOTE + "the end-to-end frame theorem is not formalised (it inherits C09's unproved whole-attempt monotonicity); reachability in the oracle uses unique names per world.",
+    'note': COMMON_NOTE + "the end-to-end frame theorem is proved for the vftable-free fragment and for a module APPENDED to the case (module order independence is part of C09); removal / edits of unreachable items are decided per run only; reachability in the oracle uses unique names per world.",
     'technique': 'Lean 4 proof (congruence of lookup / layout / emission in the registry entries they read) + differential correspondence + metamorphic frame oracle',
 }
 CLAIMS['C13'] = {
